@@ -46,7 +46,7 @@ fn fwd(op: &Op, _ctx: &dyn Context, operands: &mut dyn CoordinateSet) -> usize {
             // rounding would otherwise leave a residue (of either sign) under the root
             let s = lat.sin();
             let q = qp + sign * ancillary::qs(s.abs(), e).copysign(s);
-            let rho = if q > 0.0 { a * q.sqrt() } else { 0.0 };
+            let rho = if q < 0.0 { 0.0 } else { a * q.sqrt() };
 
             let easting = x_0 + rho * sin_lon;
             let northing = y_0 + sign * rho * cos_lon;
